@@ -30,7 +30,7 @@
 #ifndef C13_PART
 #define C13_PART 1
 #endif
-#if C13_PART == 2
+#if C13_PART >= 2
 #include "nmtools/array/view/activations/leaky_relu.hpp"
 #include "nmtools/array/view/activations/hardtanh.hpp"
 #include "nmtools/array/view/activations/hardshrink.hpp"
@@ -39,7 +39,11 @@
 #include "nmtools/array/view/reshape.hpp"
 #include "nmtools/array/view/broadcast_to.hpp"
 #include "nmtools/array/view/tile.hpp"
+#include "nmtools/array/view/repeat.hpp"
+#include "nmtools/array/view/roll.hpp"
+#include "nmtools/array/view/cumsum.hpp"
 #endif
+#include "nmtools/utility/as_static.hpp"
 #include "show.hpp"
 
 namespace fn = nmtools::functional;
@@ -72,6 +76,47 @@ template <bool OCL, typename E> static auto rebuild(const Triple& t) {
     else return na::device_array((E*)t.data, na::create_vector<0>(t.shape.data(), t.dim), t.dim);
 }
 
+// HIP / SYCL route: before the launch the host maps the extracted function to the device; the contexts' headers need
+// their toolchains, so the mapping is mirrored here line by line and calls the REAL array::as_static (and with it every
+// as_static_t<...> specialisation of the views' attributes).  eval/hip/context.hpp:292-318 (sycl/context.hpp:523-577 is the same):
+//     template <typename F, typename operands_t, typename attributes_t>
+//     auto map_to_device(const functional::functor_t<F,operands_t,attributes_t>& f) {
+//         static_assert( meta::len_v<operands_t> == 0 );
+//         if constexpr (meta::is_same_v<attributes_t,meta::empty_attributes_t>) { return f; } else {
+//             constexpr auto N = meta::len_v<attributes_t>;
+//             auto attributes  = meta::template_reduce<N>([&](auto init, auto I){
+//                 auto attribute = array::as_static(at(f.attributes,I));
+//                 return utility::tuple_append(init,attribute); }, nmtools_tuple{});
+//             return functional::functor_t<F,operands_t,decltype(attributes)>{ {f.fmap, f.operands, attributes} }; } }
+//     template <template<typename...>typename tuple, typename...functors_t, typename operands_t>
+//     auto map_to_device(const functional::functor_composition_t<tuple<functors_t...>,operands_t>& f) {
+//         auto functors = meta::template_reduce<sizeof...(functors_t)>([&](auto init, auto I){
+//             auto functor = map_to_device(at(f.functors,I)); return utility::tuple_append(init,functor); }, nmtools_tuple{});
+//         return functional::functor_composition_t<decltype(functors)>{functors}; }
+// cuda/context.hpp passes f as it is; the OpenCL context has hand-written kernels per operation and no such mapping.
+template <typename F, typename operands_t, typename attributes_t>
+static auto map_to_device(const fn::functor_t<F, operands_t, attributes_t>& f) {
+    static_assert(meta::len_v<operands_t> == 0);
+    if constexpr (meta::is_same_v<attributes_t, meta::empty_attributes_t>) return f;
+    else {
+        constexpr auto N = meta::len_v<attributes_t>;
+        auto attributes = meta::template_reduce<N>([&](auto init, auto I) {
+            auto attribute = na::as_static(nm::at(f.attributes, I));
+            return nm::utility::tuple_append(init, attribute);
+        }, nmtools_tuple{});
+        return fn::functor_t<F, operands_t, decltype(attributes)>{{f.fmap, f.operands, attributes}};
+    }
+}
+template <template <typename...> typename tuple, typename... functors_t, typename operands_t>
+static auto map_to_device(const fn::functor_composition_t<tuple<functors_t...>, operands_t>& f) {
+    static_assert(meta::len_v<operands_t> == 0);
+    auto functors = meta::template_reduce<sizeof...(functors_t)>([&](auto init, auto I) {
+        auto functor = map_to_device(nm::at(f.functors, I));
+        return nm::utility::tuple_append(init, functor);
+    }, nmtools_tuple{});
+    return fn::functor_composition_t<decltype(functors)>{functors};
+}
+
 template <auto DIM, typename O, typename F, typename Ops>
 static void one_thread(std::vector<O>& buf, const std::vector<size_t>& osh, const F& f, const Ops& ops, size_t tid, size_t bid, size_t bsz) {
     auto output = na::create_mutable_array<DIM>(buf.data(), osh.data(), osh.size());
@@ -82,12 +127,12 @@ static void one_thread(std::vector<O>& buf, const std::vector<size_t>& osh, cons
     na::assign_result(output, result, thread_id, block_id, block_size);
 }
 
-template <bool OCL, auto DIM, typename V>
+template <bool OCL, auto DIM, bool MAP = false, typename V>
 static std::string run_kernel(const V& v, size_t bsz, const std::vector<ll>& tids, const std::vector<ll>& bids) {
     auto f_ = fn::get_function_composition(v);
     auto ops_ = fn::get_function_operands(v);
     if (!nm::has_value(f_) || !nm::has_value(ops_)) return "host " + show(v) + " | kernel extraction-nothing";
-    const auto& f = nm::unwrap(f_);
+    const auto f = [&]() { if constexpr (MAP) return map_to_device(nm::unwrap(f_)); else return nm::unwrap(f_); }();
     const auto& ops = nm::unwrap(ops_);
     constexpr auto N = meta::len_v<std::decay_t<decltype(ops)>>;
     std::vector<Triple> triples;
@@ -120,7 +165,7 @@ static std::string run_kernel(const V& v, size_t bsz, const std::vector<ll>& tid
 
 template <bool OCL, typename V>
 static std::string run_dim(const std::string& style, const V& v, size_t bsz, const std::vector<ll>& tids, const std::vector<ll>& bids) {
-#ifndef VD_LIGHT
+#if !defined(VD_LIGHT) && C13_PART == 1
     if (style == "cudaN") {     // create_mutable_array<DIM>/create_vector<DIM>: the fixed-size (nmtools_array) arm
         size_t d = shape_vec(nm::shape(v)).size();
         if (d == 1) return run_kernel<OCL, 1>(v, bsz, tids, bids);
@@ -131,10 +176,15 @@ static std::string run_dim(const std::string& style, const V& v, size_t bsz, con
     return run_kernel<OCL, 0>(v, bsz, tids, bids);
 }
 
+// which build answers which style: part 1 and 2: cuda / ocl (/ cudaN); part 3: ALL compositions on the hip/sycl route only
 template <typename V>
 static std::string run_style(const std::string& style, const V& v, size_t bsz, const std::vector<ll>& tids, const std::vector<ll>& bids) {
+#if C13_PART == 3
+    if (style == "hip") return run_kernel<false, 0, true>(v, bsz, tids, bids);
+#else
     if (style == "ocl") return run_dim<true>(style, v, bsz, tids, bids);
     if (style == "cuda" || style == "cudaN") return run_dim<false>(style, v, bsz, tids, bids);
+#endif
     return "unsupported";
 }
 
@@ -145,7 +195,7 @@ static std::string handle(const Case& c) {
         auto a = make_array(c.args[2]); auto b = make_array(c.args[3]);
         size_t bsz = (size_t)c.args[5].val; const auto& tids = c.args[6].list; const auto& bids = c.args[7].list;
         if (tids.size() != bids.size() || bsz == 0) return "unsupported";
-#if C13_PART == 1
+#if C13_PART == 1 || C13_PART == 3
         // depth 1
         if (comp == "add")        return run_style(style, view::add(a, b), bsz, tids, bids);
         if (comp == "tr")         return run_style(style, view::transpose(a), bsz, tids, bids);
@@ -160,8 +210,9 @@ static std::string handle(const Case& c) {
         if (comp == "mm_tr_r")    return run_style(style, view::matmul(a, view::transpose(b)), bsz, tids, bids);
         // a broadcasting binary ufunc over a non-leaf operand at position 0 (extraction skips the broadcast_to wrapper)
         if (comp == "sub_tr_l")   return run_style(style, view::subtract(view::transpose(a), b), bsz, tids, bids);
-#else
-        // ---- part 2 (second build of this source): views whose attributes carry RUN-TIME values into the extracted
+#endif
+#if C13_PART >= 2
+        // ---- part 2 / 3 (further builds of this source): views whose attributes carry RUN-TIME values into the extracted
         // function, and outputs of rank 5..8 (the kernel's shape capacity).  Parameters come from the case line:
         // L:<params>; activation parameters are given in quarters (p/4), the data are doubles that are multiples of 4,
         // so every expected value is an integer and exact in float and double.
@@ -169,6 +220,19 @@ static std::string handle(const Case& c) {
         auto q = [&](size_t k) { return (float)((double)P.at(k) / 4.0); };
         auto ad = make_array<dyn_t<double>>(c.args[2]); auto bd = make_array<dyn_t<double>>(c.args[3]);
         if (style == "cudaN") return "unsupported";
+        // views with as_static_t<...> attribute specialisations, operands of rank >= 3, non-default attribute values
+        if (comp == "tr_ax")         return run_style(style, view::transpose(a, vec_of<int>(P)), bsz, tids, bids);
+        if (comp == "neg_tr_ax")     return run_style(style, view::negative(view::transpose(a, vec_of<int>(P))), bsz, tids, bids);
+        if (comp == "sum_tr_ax")     return run_style(style, view::sum(view::transpose(a, vec_of<int>(P)), 0), bsz, tids, bids);
+        // (view::pad is not in the table: its fill value counts as a second operand of the view while the extracted functor is
+        //  unary, so functional::apply(f, operands) is rejected by the library's static_assert(arity == n_operands))
+        if (comp == "repeat_p")      return run_style(style, view::repeat(a, (size_t)P.at(0), (int)P.at(1)), bsz, tids, bids);
+        if (comp == "roll_p")        return run_style(style, view::roll(a, (int)P.at(0), (int)P.at(1)), bsz, tids, bids);
+        if (comp == "cumsum_p")      return run_style(style, view::cumsum(a, (int)P.at(0)), bsz, tids, bids);
+        if (comp == "sum_keep")      return run_style(style, view::sum(a, (int)P.at(0), nm::None, (ll)P.at(1), nm::True), bsz, tids, bids);
+        if (comp == "tile_p")        return run_style(style, view::tile(a, vec_of<size_t>(P)), bsz, tids, bids);
+        if (comp == "reshape_p")     return run_style(style, view::reshape(a, vec_of<size_t>(P)), bsz, tids, bids);
+        if (comp == "bto_p")         return run_style(style, view::broadcast_to(a, vec_of<size_t>(P)), bsz, tids, bids);
         // parameterised unary ufuncs, alone / as outer node / as inner node of depth-2 and depth-3 compositions
         if (comp == "lrelu")         return run_style(style, view::leaky_relu(ad, q(0)), bsz, tids, bids);
         if (comp == "htanh")         return run_style(style, view::hardtanh(ad, q(0), q(1)), bsz, tids, bids);
